@@ -217,7 +217,7 @@ func cmdCheck(property string, args []string) int {
 		}
 		sort.Strings(ids)
 		for _, id := range ids {
-			if reached[id] == 0 {
+			if reached[id] == 0 && strings.HasPrefix(id, property+".") {
 				fmt.Printf("  VACUOUS: assertion %s (harness %s) was never reached\n", id, strings.Join(expected[id], ","))
 				inconclusive = true
 			}
